@@ -71,6 +71,7 @@ EXTENDED_COMMUNITY_TARGET_PARTS = 2  # Target extended community has 2 parts (AS
 COMMUNITY_HALF_MAX = 0xFFFF  # each half of a community written as <n>:<n> is two octets (RFC 1997)
 LARGE_COMMUNITY_PART_MAX = 0xFFFFFFFF  # each part of a large community is four octets (RFC 8092)
 PATH_INFORMATION_MAX = 0xFFFFFFFF  # the path identifier is four octets (RFC 7911)
+ATTRIBUTE_OCTET_MAX = 0xFF  # attribute flags and attribute type code are one octet each (RFC 4271 4.3)
 
 
 def prefix(tokeniser: 'Tokeniser') -> IPRange:
@@ -156,6 +157,11 @@ def attribute(tokeniser: 'Tokeniser') -> GenericAttribute:
         flag_int: int = int(flag, 16)
     except ValueError:
         raise ValueError(f"'{flag}' is not a valid attribute flag\n  Must be hexadecimal (e.g., 0x40)") from None
+
+    if code_int > ATTRIBUTE_OCTET_MAX:
+        raise ValueError(f"'{code}' is not a valid attribute code\n  Must be 0x00 to 0xff")
+    if flag_int > ATTRIBUTE_OCTET_MAX:
+        raise ValueError(f"'{flag}' is not a valid attribute flag\n  Must be 0x00 to 0xff")
 
     data = tokeniser().lower()
     if not data.startswith('0x'):
